@@ -8,7 +8,18 @@ from vlib import hexd, frac, frac_of_hex, unhex
 EPS = 2.0 ** -52
 
 
-STYLES = ["dyadic", "full", "full", "illcond", "rankdef", "scalar", "tall", "identityH", "diagonal", "zeroinnov", "symH"]
+STYLES = ["dyadic", "full", "tinyscale", "illcond", "rankdef", "scalar", "tall", "identityH", "diagonal", "zeroinnov", "symH", "hugescale", "mixedscale", "full"]
+
+
+def scale_of(r, style, which):
+    """overall magnitude of a covariance: the property constrains conditioning, not scale"""
+    if style == "tinyscale":
+        return 10 ** r.uniform(-10, -4)
+    if style == "hugescale":
+        return 10 ** r.uniform(4, 10)
+    if style == "mixedscale":
+        return 10 ** (r.uniform(-9, -4) if (which == "P") == (r.random() < 0.5) else r.uniform(3, 8))
+    return None
 
 
 def gen_model(g, tier, idx):
@@ -36,7 +47,7 @@ def gen_model(g, tier, idx):
         H = [[g.dyadic(-2, 2, 3) for _ in range(n)] for _ in range(m)]
     else:
         cond = 10 ** r.uniform(4, 6) if style == "illcond" else None
-        R = g.spd(m, cond=cond)
+        R = g.spd(m, cond=cond, scale=scale_of(r, style, "R"))
         H = g.mat(m, n)
     if style == "identityH":
         H = [[1.0 if i == j else 0.0 for j in range(n)] for i in range(m)]
@@ -68,7 +79,7 @@ def gen_call(g, style, n, m, H):
         y = [g.dyadic(-4, 4, 3) for _ in range(m)]
     else:
         cond = 10 ** r.uniform(4, 6) if style == "illcond" else None
-        Ps = [g.spd(n, cond=cond) for _ in range(k)]
+        Ps = [g.spd(n, cond=cond, scale=scale_of(r, style, "P")) for _ in range(k)]
         means = [g.vec(n) for _ in range(k)]
         y = g.vec(m)
     if style == "diagonal":
